@@ -54,6 +54,12 @@ func runC14(c *core.Ctx) {
 		mtu = []int{32770, 40000, 65535}[t.Intn(3)] // sizes at which 16-bit arithmetic on aggregation sizes would wrap
 		c.Probe("jumbo-mtu")
 	}
+	burst := t.Chance(1, 120) // hundreds of tiny units in one call (parameter sets, SEI, filler): counts beyond 8-bit fields
+	if burst {
+		mtu = 1600 + t.Intn(3000)
+		skipAgg = false
+		c.Probe("burst-of-tiny-units")
+	}
 	pay := &codecs.H265Payloader{AddDONL: donl, SkipAggregation: skipAgg}
 	rx := &codecs.H265Packet{}
 	rx.WithDONL(donl)
@@ -98,6 +104,13 @@ func runC14(c *core.Ctx) {
 			mtu = 6 + []int{8, 0, 1, 2, 4, 20, 40, 1194}[t.Intn(8)] + t.Intn(3) // the path MTU changed between calls
 		}
 		units := genH265Units(t, mtu)
+		if burst && k == 0 {
+			units = units[:0]
+			for i, n := 0, 200+t.Intn(600); i < n; i++ {
+				u := mkH265Hdr(byte([]int{39, 40, 32, 33, 34, 38}[t.Intn(6)]), 0, 1)
+				units = append(units, append(u, nalBody(t, 1+t.Intn(3))...))
+			}
+		}
 		for _, u := range units {
 			if len(u) == mtu-1 {
 				c.Probe("unit-eq-mtu-1")
@@ -117,7 +130,7 @@ func runC14(c *core.Ctx) {
 		}
 		expected = append(expected, units...)
 		var ps [][]byte
-		if c.Guard("codecs.H265Payloader.Payload", func() { ps = pay.Payload(uint16(mtu), annexB(t, units)) }) {
+		if c.Guard("codecs.H265Payloader.Payload", func() { ps = pay.Payload(uint16(mtu), spare(t, annexB(t, units))) }) {
 			return nil
 		}
 		c.Logf("call %d: %d units %s -> %d payloads %s", k, len(units), heads(units), len(ps), heads(ps))
